@@ -44,14 +44,18 @@ func die(f string, a ...any) {
 }
 
 func main() {
-	var swaps, rangeChans multi
+	var swaps, rangeChans, rangeMaps multi
 	in := flag.String("in", "", "input file")
 	out := flag.String("out", "", "output file")
 	doGo := flag.Bool("go", false, "rewrite go statements")
 	doChan := flag.Bool("chan", false, "rewrite channel operations")
 	flag.Var(&swaps, "swap", "import swap old=new (new relative to zzverif base unless it contains a dot)")
 	flag.Var(&rangeChans, "rangechan", "expression text that is a channel when used in for-range (needed with -chan)")
+	flag.Var(&rangeMaps, "maprange", "expression text of a string-keyed map whose for-range is made to visit keys in sorted order")
 	flag.Parse()
+	for _, r := range rangeMaps {
+		mapVar[r] = true
+	}
 	fset := token.NewFileSet()
 	f, err := parser.ParseFile(fset, *in, nil, parser.ParseComments)
 	if err != nil {
@@ -98,7 +102,7 @@ func main() {
 			fmt.Fprintf(os.Stderr, "vinstr: note: %s does not import %q\n", *in, p)
 		}
 	}
-	if *doGo || *doChan {
+	if *doGo || *doChan || len(rangeMaps) > 0 {
 		rewriteFile(f, *doGo, *doChan)
 	}
 	if needSch {
@@ -233,6 +237,9 @@ func rewriteFile(f *ast.File, doGo, doChan bool) {
 			v.Body.List = walkBlock(v.Body.List)
 			if doChan && chanVar[exprText(v.X)] {
 				return rangeChan(v)
+			}
+			if mapVar[exprText(v.X)] {
+				return rangeMap(v)
 			}
 		case *ast.SwitchStmt:
 			v.Init = walkStmt(v.Init)
@@ -375,6 +382,43 @@ func rewriteGo(g *ast.GoStmt) ast.Stmt {
 }
 
 // for v := range ch { body }  =>  for v, _ok := Recv2(ch); _ok; v, _ok = Recv2(ch) { body }
+var mapVar = map[string]bool{}
+
+// rangeMap turns   for k, v := range m { body }   into
+//
+//	for _, k := range vsched.SortedKeys(m) { v, ok := m[k]; if !ok { continue }; body }
+//
+// so that the iteration order of a map is owned by the harness (it is otherwise random per execution, which
+// breaks replay). Entries deleted during the loop are skipped as with the built-in range; entries added during the
+// loop are not visited (the built-in range may or may not visit them).
+func rangeMap(r *ast.RangeStmt) ast.Stmt {
+	needSch = true
+	if r.Tok != token.DEFINE || r.Key == nil {
+		die("-maprange needs 'for k[, v] := range m'")
+	}
+	key := r.Key
+	if id, ok := key.(*ast.Ident); ok && id.Name == "_" {
+		key = ast.NewIdent(tmp())
+	}
+	okn := ast.NewIdent(tmp())
+	var val ast.Expr = ast.NewIdent("_")
+	if r.Value != nil {
+		val = r.Value
+	}
+	pre := []ast.Stmt{
+		&ast.AssignStmt{Lhs: []ast.Expr{val, okn}, Tok: token.DEFINE, Rhs: []ast.Expr{&ast.IndexExpr{X: r.X, Index: key}}},
+		&ast.IfStmt{Cond: &ast.UnaryExpr{Op: token.NOT, X: okn}, Body: &ast.BlockStmt{List: []ast.Stmt{&ast.BranchStmt{Tok: token.CONTINUE}}}},
+	}
+	if id, ok := val.(*ast.Ident); ok && id.Name == "_" {
+		pre[0] = &ast.AssignStmt{Lhs: []ast.Expr{ast.NewIdent("_"), okn}, Tok: token.DEFINE, Rhs: []ast.Expr{&ast.IndexExpr{X: r.X, Index: key}}}
+	}
+	return &ast.RangeStmt{
+		Key: ast.NewIdent("_"), Value: key, Tok: token.DEFINE,
+		X:    &ast.CallExpr{Fun: &ast.SelectorExpr{X: ast.NewIdent("zzvsched"), Sel: ast.NewIdent("SortedKeys")}, Args: []ast.Expr{r.X}},
+		Body: &ast.BlockStmt{List: append(pre, r.Body.List...)},
+	}
+}
+
 func rangeChan(r *ast.RangeStmt) ast.Stmt {
 	needCh = true
 	okn := tmp()
